@@ -13,3 +13,12 @@ package keeper
 //@ ensures [baseline_kept_until_expiry] has(old(reporter.Tracker)) && blocktime(ctx) < old(deref(reporter.Tracker.Expiration)) ==> err == nil && reporter.Tracker == old(reporter.Tracker)
 //@ ensures [baseline_refreshed_after_expiry] err == nil && has(old(reporter.Tracker)) && blocktime(ctx) >= old(deref(reporter.Tracker.Expiration)) ==> reporter.Tracker.Amount == staking.bonded && reporter.Tracker.Expiration != nil && deref(reporter.Tracker.Expiration) == blocktime(ctx) + 43200000000000
 //@ ensures [no_baseline_no_write] !has(old(reporter.Tracker)) ==> err != nil && !has(reporter.Tracker)
+
+// ---- privileged handlers (C19) ----
+
+//@ func (k msgServer).UpdateParams(goCtx, req) (resp, err)
+//@ requires [msg_present] req != nil
+//@ modifies reporter.Params
+//@ ensures [only_governance_authority] err == nil ==> req.Authority == k.Keeper.authority
+//@ ensures [rejected_request_changes_nothing] req.Authority != k.Keeper.authority ==> err != nil && nothing_written()
+//@ ensures [sets_params] err == nil ==> reporter.Params == req.Params
